@@ -57,6 +57,9 @@ THEOREMS = [
     'C02_large_selector',
     'C02_number_items_spec',
     'C02_numbered_ids_select_regions',
+    'C02_text_every_card_locus_sense',
+    'C02_split_surface_render',
+    'C02_to_float_denotes',
     'C02_spec_sanity',
     'C02_sense_value_sign',
 ]
@@ -832,8 +835,8 @@ def run(res, tier, seed, proofs_ok):
 def _run(res, tier, seed, proofs_ok):
     rng = random.Random(seed)
     quick = tier == 'quick'
-    per_tag = 64 if quick else 600
-    n_bad = 560 if quick else 5000
+    per_tag = 56 if quick else 600
+    n_bad = 480 if quick else 5000
     res.rule = ('one surface card per case: every mnemonic of the mcnp2cad '
                 'table in every form (4- and 9-entry P, K with/without sheet '
                 'selector, 5/6-entry tori, 2/4-entry X/Y/Z incl. plane, '
